@@ -124,12 +124,10 @@ def losInit (eps : Rat) (shape : List Nat) (dist : List Rat) (starts ends : List
   some ⟨starts.length, npix,
     ((List.range starts.length).zip rows).flatMap fun rr => rr.2.map fun pw => (rr.1, pw.1.toNat, pw.2)⟩
 
-/-- genericity of one line on `[dmin, dmax]` (what the refinement theorem assumes; decidable, reported by the driver):
-    no two crossing parameters coincide, and the entry point is on no grid plane of a moving axis -/
+/-- genericity of one line on `[dmin, dmax]` — exactly the hypotheses of the refinement theorem (`genericOn_spec`), decidable,
+    reported by the driver: no two crossing parameters coincide, and the entry point is on no grid plane of a moving axis -/
 def genericOn (shape : List Nat) (s dir : List Rat) (dmin dmax : Rat) : Bool :=
-  let ts := (events shape s dir dmin dmax).map Prod.fst
-  let srt := ts.mergeSort fun a b => decide (a ≤ b)
-  (((srt.zip (srt.drop 1)).all fun ab => decide (ab.1 < ab.2)) &&
-   ((s.zip dir).all fun sd => sd.2 == 0 || decide (((sd.1 + dmin * sd.2).floor : Rat) ≠ sd.1 + dmin * sd.2)))
+  decide (((events shape s dir dmin dmax).map Prod.fst).Nodup) &&
+   ((s.zip dir).all fun sd => sd.2 == 0 || decide (((sd.1 + dmin * sd.2).floor : Rat) ≠ sd.1 + dmin * sd.2))
 
 end NiftyVerif.ResponseLos
